@@ -22,7 +22,7 @@ STRATEGIES = ["none", "default_pacbio", "default_ont", "conservative_ont", "all"
 END_MOVERS = {"default_ont", "all"}          # strategies with fake_terminal_exons and/or terminal_exons
 FAKE_TERMINAL_ONLY = {"default_ont"}           # fake_terminal_exons without terminal_exons (isoquant.py table, docs)
 NOISE = ["shift", "skipmicro", "faketerm", "microir", "mmjunction", "termmis", "termmis", "tinyterm", "tinyterm",
-         "fakemicro"]
+         "fakemicro", "tinyinner", "tinyinner"]
 
 
 @st.composite
@@ -166,7 +166,7 @@ def illumina_scenarios(draw):
             k += 1
             # long read: junctions shifted by exactly +-4 on one side sometimes, or an internal micro-exon skipped
             blocks = [list(e) for e in ex]
-            mode = src.choice(["exact", "shift4", "skip", "shift", "tiny_end", "tiny_start"])
+            mode = src.choice(["exact", "shift4", "skip", "shift", "tiny_end", "tiny_start", "tiny_inner"])
             if mode == "shift4" and len(blocks) > 1:
                 i = src.int(0, len(blocks) - 2)
                 if src.bool():
@@ -199,7 +199,14 @@ def illumina_scenarios(draw):
                     istart = blocks[i - 1][1] + 1
                     if blocks[i][0] - istart >= 60:
                         blocks = [[istart, istart + d - 1]] + blocks[i:]
-            if mode not in ("tiny_end", "tiny_start") and (
+            elif mode == "tiny_inner" and len(blocks) > 2:
+                i = src.int(0, len(blocks) - 2)
+                iend = blocks[i + 1][0] - 1
+                d, extra = src.int(4, 6), src.int(20, 30)
+                if iend - blocks[i][1] >= 60 and blocks[i + 1][1] - blocks[i + 1][0] >= extra + 60:
+                    blocks = blocks[:i + 1] + [[iend - d, iend - 1], [blocks[i + 1][0] + extra, blocks[i + 1][1]]] + \
+                        blocks[i + 2:]
+            if mode not in ("tiny_end", "tiny_start", "tiny_inner") and (
                     any(b[1] - b[0] < 5 for b in blocks) or any(blocks[i + 1][0] - blocks[i][1] < 5 for i in
                                                                 range(len(blocks) - 1))):
                 blocks = [list(e) for e in ex]
